@@ -260,6 +260,40 @@ def check_chunk(spec, ctx):
             ctx.eq(cname + ":from_chunk_relative_location:chromosome_positions", rm.loc_positions(X.chromosome_location), inside)
             ctx.eq(cname + ":from_chunk_relative_location:chromosome_strand", X.strand.to_symbol(), L["strand"])
             ctx.eq(cname + ":from_chunk_relative_location:spliced_sequence", str(X.get_spliced_sequence()), rm.seq_image(G, inside, L["strand"]))
+        # collection-level objects carry the SPAN of their members on the plus strand, lifted onto the chunk the same way: its
+        # chunk coordinates are the window's own (counted from the other end on a reverse-complement chunk), it lifts back to the
+        # chromosome span, and its reference sequence is the plus-strand chromosome sequence of the part inside the window
+        from inscripta.biocantor.gene.collections import GeneInterval, FeatureIntervalCollection, AnnotationCollection
+        lo_, hi_ = bl[0][0], max(b_[1] for b_ in bl)
+        span_in = list(range(max(lo_, cs), min(hi_, ce)))
+        st_ = [b_[0] for b_ in bl]
+        en_ = [b_[1] for b_ in bl]
+        try:
+            colls = [("gene", GeneInterval([TranscriptInterval(st_, en_, STRAND[L["strand"]], parent_or_seq_chunk_parent=chunk_parent)], parent_or_seq_chunk_parent=chunk_parent)),
+                     ("feature_collection", FeatureIntervalCollection([FeatureInterval(st_, en_, STRAND[L["strand"]], parent_or_seq_chunk_parent=chunk_parent)], parent_or_seq_chunk_parent=chunk_parent))]
+            colls.append(("annotation_collection", AnnotationCollection(genes=[colls[0][1]], feature_collections=[colls[1][1]], parent_or_seq_chunk_parent=chunk_parent)))
+            if spec.get("explicit_bounds"):
+                a_, b_ = max(0, lo_ - spec["explicit_bounds"][0]), min(len(G), hi_ + spec["explicit_bounds"][1])
+                colls.append(("annotation_collection_with_bounds", AnnotationCollection(genes=[colls[0][1]], start=a_, end=b_, parent_or_seq_chunk_parent=chunk_parent)))
+        except (BioCantorException, ValueError) as e:
+            ctx.fail("collection_on_chunk_raises", repr(e)[:120])
+            colls = []
+        for cname, C in colls:
+            lo2, hi2 = (C.start, C.end)
+            if cname in ("gene", "feature_collection"):
+                ctx.eq(cname + ":span_is_the_members_span", [lo2, hi2], [lo_, hi_])
+            elif cname == "annotation_collection":
+                # without explicit bounds an annotation collection on a chunk stands for the chunk's window (documented)
+                ctx.eq(cname + ":span_is_the_window", [lo2, hi2], [cs, ce])
+            want = list(range(max(lo2, cs), min(hi2, ce)))
+            crl = C.chunk_relative_location
+            ctx.eq(cname + ":chunk_relative_span_positions", rm.loc_positions(crl), on_chunk(want, cs, ce, st1))
+            ctx.eq(cname + ":chunk_relative_span_strand", rm.loc_strand(crl), st1)
+            ctx.eq(cname + ":span_lifts_back_to_chromosome", rm.loc_positions(crl.lift_over_to_first_ancestor_of_type("chromosome")), want)
+            ctx.eq(cname + ":reference_sequence", str(C.get_reference_sequence()), G[want[0]:want[-1] + 1])
+            ctx.label("collection_span_on_chunk")
+            if st1 == "-" and (want[0] - cs) != (ce - 1 - want[-1]):
+                ctx.label("collection_span_on_minus_chunk_off_centre")
     ctx.true("chunk_has_chunk_ancestor", lifted.has_ancestor_of_type("sequence_chunk") and lifted.has_ancestor_of_type("chromosome"))
     back = lifted.lift_over_to_first_ancestor_of_type("chromosome")
     ctx.eq("chunk_roundtrip_positions", od(rm.loc_positions(back)), od(inside))
@@ -417,7 +451,7 @@ def strat_chunk(draw, tier="quick"):
         if mode == 1:
             return [lo, hi]
         return [a, b]
-    return {"genome": G, "loc": L, "chunk": window(), "chunk2": window(), "loc_parent": draw(st.sampled_from(["none", "chrom_seq", "chrom_id"])),
+    return {"genome": G, "loc": L, "chunk": window(), "chunk2": window(), "explicit_bounds": draw(st.sampled_from([None, [0, 0], [1, 2], [3, 0]])), "loc_parent": draw(st.sampled_from(["none", "chrom_seq", "chrom_id"])),
             "chunk_strand": draw(st.sampled_from(["+", "+", "-"])), "chunk2_strand": draw(st.sampled_from(["+", "+", "-"]))}
 
 
@@ -431,8 +465,8 @@ PROP = Prop(
             must_hit=["child_overhangs_window", "child_inside_window", "overhanging_child_not_longer_than_window", "nested_windows"],
             rule="sequence-less window parents (1..3-block placement on either strand, optionally a second window nested inside) x child locations inside the window, reaching 1..4 bases past its end, or far beyond it (the child's own length often not larger than the window): lifting must refuse every child that leaves the window and lift the others exactly"),
         Leg("chunk", check_chunk, strategy=strat_chunk, n_quick=1200, n_thorough=10000, shards_quick=4,
-            must_hit=["chunk_cuts_block", "chunk_misses", "chunk_to_chunk", "minus", "minus_chunk", "chunk_to_chunk_with_minus_chunk", "overlapping_blocks"],
-            rule="chromosome locations x chunk windows x chunk strands (a chunk may be the reverse complement of its window) through seq_chunk_to_parent and liftover_location_to_seq_chunk_parent, lifted down, back up, and on to a second chunk of either strand"),
+            must_hit=["chunk_cuts_block", "chunk_misses", "chunk_to_chunk", "minus", "minus_chunk", "chunk_to_chunk_with_minus_chunk", "overlapping_blocks", "collection_span_on_minus_chunk_off_centre"],
+            rule="chromosome locations x chunk windows x chunk strands (a chunk may be the reverse complement of its window) through seq_chunk_to_parent and liftover_location_to_seq_chunk_parent, lifted down, back up, and on to a second chunk of either strand; the span of a gene / feature collection / annotation collection (with and without explicit bounds) built on the same chunk"),
     ],
     rule="Oracle: composition of per-level position lists (PosModel) and SeqModel on the root. Non-trivial: depth>=2 with a minus level and a "
          "multi-block level, or a child block split across parent blocks, or a chunk cutting a block / missing the location.",
